@@ -558,4 +558,89 @@ Proof.
     destruct (N.eqb_spec y q) as [->|M4]; [simpl_ne; reflexivity|]. simpl_ne. reflexivity.
 Qed.
 
+(** ... and the map stays well formed (the clause the code before 667f50e broke: a removed dart kept a neighbour) *)
+Theorem halfcell_to_base_boundary_wf E n ks pe e ne c w cnt w' cnt' :
+  wf2 n w -> pe < n -> pe <> e -> pe <> ne -> e <> ne -> e <> 0 -> ne <> 0 ->
+  beta w 1 pe = e -> beta w 1 e = ne -> beta w 1 ne = pe ->
+  beta w 2 ne = 0 -> beta w 2 e = 0 ->
+  run E (collapse_halfcell_to_base n ks pe e ne) c w cnt = (Done tt, w', cnt') ->
+  wf2 n w'.
+Proof.
+  intros W Hpn Q1 Q2 Q4 E0 N0 B1 B2 B3 Zn Ze Hr.
+  pose proof W as [W1 W2 W3 W4 W5 W6].
+  assert (P0 : pe <> 0) by (intros ->; rewrite (W1 1 eq_refl) in B1; congruence).
+  assert (Hen : e < n) by (rewrite <- B1; apply W2; [reflexivity|exact Hpn]).
+  assert (Hnn : ne < n) by (rewrite <- B2; apply W2; [reflexivity|exact Hen]).
+  assert (P0e : beta w 0 e = pe) by (rewrite <- B1; apply W3; [exact Hpn|rewrite B1; exact E0]).
+  assert (P0n : beta w 0 ne = e) by (rewrite <- B2; apply W3; [exact Hen|rewrite B2; exact N0]).
+  assert (P0p : beta w 0 pe = ne) by (rewrite <- B3; apply W3; [exact Hnn|rewrite B3; exact P0]).
+  remember (beta w 2 pe) as x eqn:Ex.
+  assert (Gx : x <> 0 -> beta w 2 x = pe /\ x <> pe) by (intros Nx; rewrite Ex; apply W5; [exact Hpn|rewrite <- Ex; exact Nx]).
+  assert (Xe : x <> 0 -> x <> e) by (intros Nx ->; destruct (Gx Nx) as [G _]; rewrite Ze in G; congruence).
+  assert (Xn : x <> 0 -> x <> ne) by (intros Nx ->; destruct (Gx Nx) as [G _]; rewrite Zn in G; congruence).
+  assert (Hnd : NoDup [pe; e; ne; x]).
+  { destruct (N.eq_dec x 0) as [Zx|Nx].
+    - rewrite Zx. repeat constructor; cbn [In]; intuition congruence.
+    - pose proof (Gx Nx) as [_ Xp]. specialize (Xe Nx). specialize (Xn Nx).
+      repeat constructor; cbn [In]; intuition congruence. }
+  assert (T := halfcell_to_base_boundary E n ks pe e ne c w cnt w' cnt').
+  cbv zeta in T. rewrite <- Ex in T.
+  destruct (T Hnd P0 E0 N0 B1 B2 B3 Zn Ze (fun Nx => proj1 (Gx Nx)) Hr) as (Hb0 & Hu0). clear T.
+  set (three := fun y => (y =? pe) || (y =? e) || (y =? ne)).
+  set (cut := fun i y => (i =? 2) && (y =? x) && negb (x =? 0)).
+  assert (Hb : forall i y, beta w' i y = if three y then (if i <? 3 then 0 else beta w i y) else if cut i y then 0 else beta w i y)
+    by (intros i y; rewrite Hb0; reflexivity).
+  assert (Hu : forall y, unused w' y = if three y then true else unused w y) by (intros y; rewrite Hu0; reflexivity).
+  clear Hb0 Hu0.
+  assert (Three : forall y, three y = true <-> (y = pe \/ y = e \/ y = ne)).
+  { intros y. unfold three. rewrite !orb_true_iff, !N.eqb_eq. tauto. }
+  assert (Cut : forall i y, cut i y = true <-> (i = 2 /\ y = x /\ x <> 0)).
+  { intros i y. unfold cut. rewrite !andb_true_iff, negb_true_iff, !N.eqb_eq, N.eqb_neq. tauto. }
+  assert (In1 : forall y, three y = true -> three (beta w 1 y) = true).
+  { intros y Hy. apply Three in Hy. apply Three. destruct Hy as [->|[->| ->]]; rewrite ?B1, ?B2, ?B3; tauto. }
+  assert (In0 : forall y, three y = true -> three (beta w 0 y) = true).
+  { intros y Hy. apply Three in Hy. apply Three. destruct Hy as [->|[->| ->]]; rewrite ?P0e, ?P0n, ?P0p; tauto. }
+  assert (Cut1 : forall y, cut 1 y = false) by reflexivity.
+  assert (Cut0 : forall y, cut 0 y = false) by reflexivity.
+  constructor.
+  - intros i Hi. rewrite Hb.
+    assert (Q : three 0 = false) by (destruct (three 0) eqn:Q; [apply Three in Q; intuition congruence|reflexivity]).
+    rewrite Q. destruct (cut i 0); [reflexivity|apply W1; exact Hi].
+  - intros i y Hi Hy. rewrite Hb.
+    assert (Zn' : 0 < n) by (apply (N.le_lt_trans _ pe); [apply N.le_0_l|exact Hpn]).
+    destruct (three y).
+    + destruct (i <? 3); [exact Zn'|apply W2; assumption].
+    + destruct (cut i y); [exact Zn'|apply W2; assumption].
+  - intros y Hy Hnz. rewrite Hb in Hnz. destruct (three y) eqn:Sy; [change (1 <? 3) with true in Hnz; congruence|].
+    rewrite Cut1 in Hnz. rewrite (Hb 1 y), Sy, Cut1. rewrite Hb, Cut0.
+    destruct (three (beta w 1 y)) eqn:Sz.
+    + apply In0 in Sz. rewrite (W3 y Hy Hnz) in Sz. congruence.
+    + apply W3; assumption.
+  - intros y Hy Hnz. rewrite Hb in Hnz. destruct (three y) eqn:Sy; [change (0 <? 3) with true in Hnz; congruence|].
+    rewrite Cut0 in Hnz. rewrite (Hb 0 y), Sy, Cut0. rewrite Hb, Cut1.
+    destruct (three (beta w 0 y)) eqn:Sz.
+    + apply In1 in Sz. rewrite (W4 y Hy Hnz) in Sz. congruence.
+    + apply W4; assumption.
+  - intros y Hy Hnz. rewrite Hb in Hnz. destruct (three y) eqn:Sy; [change (2 <? 3) with true in Hnz; congruence|].
+    destruct (cut 2 y) eqn:Cy; [congruence|].
+    rewrite (Hb 2 y), Sy, Cy.
+    destruct (W5 y Hy Hnz) as (I2 & I3).
+    remember (beta w 2 y) as z eqn:Ez.
+    assert (Sz : three z = false).
+    { destruct (three z) eqn:Q; [|reflexivity]. apply Three in Q. exfalso. destruct Q as [->|[->| ->]].
+      - rewrite <- Ex in I2.
+        assert (C : cut 2 y = true) by (apply Cut; repeat split; [congruence|intros Zx; rewrite Zx in I2; rewrite <- I2, (W1 2 eq_refl) in Ez; congruence]).
+        congruence.
+      - rewrite Ze in I2. rewrite <- I2, (W1 2 eq_refl) in Ez. congruence.
+      - rewrite Zn in I2. rewrite <- I2, (W1 2 eq_refl) in Ez. congruence. }
+    assert (Cz : cut 2 z = false).
+    { destruct (cut 2 z) eqn:Q; [|reflexivity]. apply Cut in Q. destruct Q as (_ & -> & Nx). exfalso.
+      destruct (Gx Nx) as [G _]. rewrite G in I2.
+      assert (C : three y = true) by (apply Three; left; congruence). congruence. }
+    rewrite Hb, Sz, Cz. split; assumption.
+  - intros y Hy Hux i Hi. rewrite Hu in Hux. rewrite Hb. destruct (three y).
+    + assert (Q : (i <? 3) = true) by (apply N.ltb_lt; exact Hi). rewrite Q. reflexivity.
+    + destruct (cut i y); [reflexivity|]. apply (W6 y Hy Hux); exact Hi.
+Qed.
+
 End CollapseTopo.
